@@ -11,8 +11,9 @@ from .ip_checks import Sess, exc_name
 from .secret_checks import gen_history, render
 from .text_checks import SALTS, WORDLISTS, mixed_text
 
-NAMES = ["r1.cfg", "core router.conf", "ü-edge.cfg", "dots.in.name.txt", "UPPER", "a", "site b", "x y z.cfg", "配置.cfg", "tab\tname", "-dash", "semi;colon"]
-DIRS = ["site a", "pop-1", "データ", "deep", ".git", "s", "with.dot", "Ünï"]
+NAMES = ["r1.cfg", "core router.conf", "ü-edge.cfg", "dots.in.name.txt", "UPPER", "a", "site b", "x y z.cfg", "配置.cfg", "tab\tname", "-dash", "semi;colon", "name[0].cfg",
+         "x.tmp", "x"]
+DIRS = ["site a", "pop-1", "データ", "deep", ".git", "s", "with.dot", "Ünï", "site[1]", "rack [a-c]", "q?", "st*r"]
 
 
 def gen_tree(rng, cfg, n_files):
@@ -35,6 +36,8 @@ def gen_tree(rng, cfg, n_files):
             body = body.replace("\n", "\r\n")
         elif k < 0.25 and body.endswith("\n"):
             body = body[:-1]
+        if rng.random() < 0.2:
+            body = "\ufeff" + body        # a byte order mark is a character of the first line like any other
         files[os.path.join(d, name) if d else name] = body.encode("utf-8")
     for d in dirs:
         if d and not any(p.startswith(d + os.sep) for p in files):
@@ -109,7 +112,9 @@ def files_scope(res, pid, rng, tier):
         files, empty_dirs = gen_tree(rng, cfg, 8 if tier == "thorough" else 6)
         d = tempfile.mkdtemp(prefix="ncverif_")
         try:
-            ind = os.path.join(d, "in dir")
+            ind = os.path.join(d, ["in dir", "configs [2024]", "in[a]", "in dir"][r % 4])
+            if r % 2 == 0 and not any(k.startswith("site[1]") for k in files):
+                files[os.path.join("site[1]", "r1.cfg")] = "".join(mixed_text(rng, cfg, 3)).encode("utf-8")
             write_tree(ind, files, empty_dirs)
             before = read_tree(ind)
             want = sorted(p for p in files if not os.path.basename(p).startswith("."))
@@ -189,6 +194,34 @@ def files_scope(res, pid, rng, tier):
                                   "file_bytes": files[rel][:200].decode("utf-8", "replace"),
                                   "outputs": {k: (v or b"<none>")[:200].decode("utf-8", "replace") for k, v in outs.items()}})
                 shutil.rmtree(one + "_o1", ignore_errors=True)
+            # a single input file and a bare relative output name, from the file's directory (API and command line)
+            if want:
+                cwd = os.getcwd()
+                rel0 = want[0]
+                wd = os.path.join(d, "cwd")
+                os.makedirs(wd, exist_ok=True)
+                open(os.path.join(wd, "router.cfg"), "wb").write(files[rel0])
+                try:
+                    os.chdir(wd)
+                    with fa.LogCap():
+                        anonymize_files("router.cfg", "api.cfg", cfg.pwd, cfg.ip, **api_kwargs(cfg))
+                    import contextlib as _cl
+                    try:
+                        with fa.LogCap(), _cl.redirect_stderr(io.StringIO()):
+                            nc.main(cli_argv(cfg, "router.cfg", "cli.cfg"))
+                    except BaseException:  # noqa
+                        pass
+                finally:
+                    os.chdir(cwd)
+                o = io.StringIO()
+                with fa.LogCap():
+                    cfg.build().anonymize_io(open(os.path.join(wd, "router.cfg"), "r", newline="", encoding="utf-8"), o)
+                res.evaluations += 2
+                for nm in ("api.cfg",) + (("cli.cfg",) if cfg.prefixes is None else ()):
+                    pth = os.path.join(wd, nm)
+                    if not os.path.isfile(pth) or open(pth, "rb").read() != o.getvalue().encode("utf-8"):
+                        fails.append({"kind": "a single input file with a bare relative output name did not yield that output file with the stream API's content",
+                                      "cfg": cfg.describe(), "output_name": nm, "cwd_listing": sorted(os.listdir(wd))})
             # a single, explicitly named input file whose name starts with a dot yields the named output file
             if want:
                 hid = os.path.join(d, ".rtr1.running-config")
@@ -233,6 +266,10 @@ def files_scope(res, pid, rng, tier):
             run_dir_api(cfg, ind3, outc)
             gotc = read_tree(outc)
             res.evaluations += len(bad_files)
+            stray = sorted(k for k in gotb if k not in gotc and k not in bad_files)
+            if stray:
+                fails.append({"kind": "something other than the output files was written (run with files that cannot be processed)", "cfg": cfg.describe(),
+                              "unexpected": stray, "failing_files": ["0bad-late.cfg", "bad-early.cfg", occupied, blocked]})
             errs = [m for lv, m in logs if lv == "ERROR"]
             for name in (["0bad-late.cfg", "bad-early.cfg", blocked] + ([occupied] if occupied else [])) if logs else []:
                 if not any(os.path.basename(name) in m for m in errs):
